@@ -65,3 +65,18 @@ try:
     print("D16d not reproduced")
 except Exception as e:  # noqa: BLE001
     print("D16d:", type(e).__name__, str(e)[:80])
+
+
+# D16 (fifth trigger): `lit <cmp> scalar column` (constant column / unpartitioned aggregate) is a length-1 series:
+# ShapeError at top level, a wrong aggregate below .over(); `scalar column <cmp> lit` is right
+base = pl.DataFrame({"k": [1, 2]}).with_columns(n2=pl.col("k").filter(pl.col("k") > 5).sum() * pl.lit(None).cast(pl.Int64))
+left = pl.lit(-3, dtype=pl.Int64) == pl.col("n2")
+right = pl.col("n2") == pl.lit(-3, dtype=pl.Int64)
+try:
+    base.with_columns(z=left)
+    print("D16e not reproduced")
+except Exception as e:  # noqa: BLE001
+    print("D16e:", type(e).__name__, str(e)[:70].replace("\n", " "))
+for nm, c in (("lit == col", left), ("col == lit", right)):
+    z = pl.when(c.count() == 0).then(pl.lit(None).cast(pl.Boolean)).otherwise(c.all()).over("n2")
+    print("D16e:", nm, "under .over():", base.with_columns(z=z).get_column("z").to_list(), "(null expected: the comparison is null in every row)")
